@@ -285,10 +285,30 @@ Definition msgid (i : bytes) : Z := uint_value i mod 2 ^ 32.
 Definition access_of (a : Z) : access_type :=
   if a =? 0 then AccUnrestricted else if a =? 1 then AccRead else if a =? 2 then AccWrite else AccReadWrite.
 
-(** int64 of a number read by Parser.int: ParseFloat, int64 conversion with clamps, sign applied *)
+(** a number written as a decimal integer: digits only, no fraction, no exponent *)
+Definition is_int_lit (n : snum) : bool :=
+  match n_frac n, n_exp n with None, None => true | _, _ => false end.
+
+(** saturation at the int64 limits *)
+Definition sat64 (z : Z) : Z := Z.max (- 2 ^ 63) (Z.min (2 ^ 63 - 1) z).
+
+(** int64 denoted by a number in a position read by Parser.int (INT / HEX attribute ranges, defaults
+    and values).  A decimal integer literal denotes ITS VALUE (digits read in base ten, sign applied),
+    saturated at the int64 limits - stated without reference to the parser model.  Only the other
+    spellings (fraction and / or exponent) are read through float64: correctly rounded ParseFloat,
+    truncation toward zero with clamps, sign applied afterwards as the parser does. *)
 Definition num_int (n : snum) : Z :=
+  if is_int_lit n then sat64 (if n_neg n then - uint_value (n_digits n) else uint_value (n_digits n))
+  else match parse_float (num_lit n) with
+       | Some b => let i := int64_of_b64 b in if n_neg n then neg64 i else i
+       | None => 0
+       end.
+
+(** what the code as it was made of it (F12): every spelling through float64, upper clamp tested
+    with '>' (refuted in Properties/C04.v) *)
+Definition num_int_old (n : snum) : Z :=
   match parse_float (num_lit n) with
-  | Some b => let i := int64_of_b64 b in if n_neg n then neg64 i else i
+  | Some b => let i := int64_of_b64_old b in if n_neg n then neg64 i else i
   | None => 0
   end.
 
